@@ -136,6 +136,7 @@ def _summarize(c, rep):
         'source': rep.source, 'sha256': rep.sha, 'wall': rep.wall, 'solver_time': solver_time,
         'by_backend': by_backend, 'vcs': vcs, 'samples': samples,
         'unknown_feasibility': rep.unknown_feasibility, 'feasibility_queries': rep.feasibility_queries,
+        'uncovered': rep.uncovered,
     }
 
 
@@ -334,6 +335,9 @@ def report(prop, mine, results, missing, seed, wall, args):
                 crashes.append((rep['qname'], '\n'.join(rep['errors'][:3])))
             if rep['paths'] == 0 and not rep['unsupported'] and not rep['errors']:
                 crashes.append((rep['qname'], 'vacuous: no feasible path (contradictory precondition?)'))
+            if rep.get('uncovered'):
+                crashes.append((rep['qname'], 'vacuous: return/raise never reached on a feasible path (cut off by an '
+                                              'assumption?): ' + '; '.join(rep['uncovered'])))
             if not rep['clauses'] and not rep['unsupported'] and not rep['errors']:
                 crashes.append((rep['qname'], 'vacuous: zero obligations generated'))
             for name, cl in rep['clauses'].items():
